@@ -31,6 +31,17 @@ def fill_events(avail, out, kd, pf1, T):
     return ev
 
 
+def all_finite(x):
+    import math
+    if x is None or isinstance(x, (str, bool)):
+        return True
+    if isinstance(x, (int, float)):
+        return math.isfinite(x)
+    if isinstance(x, dict):
+        return all(all_finite(v) for v in x.values())
+    return all(all_finite(v) for v in x)
+
+
 def run(pid, tier):
     out = C.Outcome(pid, tier)
     out.rule = ("all small integer inputs of MC_Handoff (FillMin 972, Retime 729, Bump 324 in the quick grid, 225 of them with charges within demand) run through the real "
@@ -61,6 +72,10 @@ def run(pid, tier):
             out.extra["refused_" + c["k"]] = out.extra.get("refused_" + c["k"], 0) + 1
             out.violation("generated:%s:exception" % c["k"], "the %s helper raised %s on an input of its domain" % (c["k"], rec["exc"]), rec)
             continue
+        if not all_finite(rec["out"]):
+            # (not a number the specification can be asked about: a hand-off must be made of finite quantities)
+            out.violation("generated:%s:FiniteQuantities" % c["k"], "the %s helper returned a non-finite quantity on generated input %s" % (c["k"], json.dumps(c)[:300]), rec)
+            continue
         if c["k"] == "FillMin":
             ev = fill_events(c, rec["out"], c["kd"], c["pf1"], c["T"])
         elif c["k"] == "Retime":
@@ -78,6 +93,10 @@ def run(pid, tier):
             continue
         ev = []
         fm, rt, bp = run_.get("fillmin"), run_.get("retime"), run_.get("bump")
+        if not all_finite([fm and fm["out"], rt and rt["out"], bp and [bp["out_biofuel"], bp["out_feed"]]]):
+            out.violation("corpus:FiniteQuantities", "%s %s: a hand-off contains a non-finite quantity" % (run_["job"]["cc"], run_["job"]["preset"]),
+                          dict(job=run_["job"]))
+            continue
         if fm:
             ev += fill_events(fm["avail"], fm["out"], fm["kd"], fm["pf1"], fm["T"])
         if rt:
